@@ -1,3 +1,306 @@
-pub fn child_main(_args: &[String]) -> i32 {
-    64
+//! Worker processes: anything that may panic, abort, exhaust memory or hang is executed in child
+//! processes of this same binary. The child announces every case before running it (`B id`),
+//! reports the outcome after (`R id json`), converts panics into outcomes (panic hook +
+//! catch_unwind), enforces an allocation budget per case (monitor/alloc.rs) and has RLIMIT_AS as a
+//! backstop. The parent owns the oracle, the watchdog and the evidence; a child that dies leaves its
+//! last `B` as the suspect.
+
+use crate::monitor::alloc;
+use crate::util::par::guard;
+use serde_json::{json, Value};
+use std::io::{BufRead, BufReader, Read, Write};
+use std::path::Path;
+use std::process::{Command, Stdio};
+use std::sync::atomic::{AtomicBool, AtomicU64, Ordering};
+use std::sync::{Arc, Mutex};
+use std::time::{Duration, Instant};
+
+pub type Judge = fn(&[u8]) -> Value;
+
+fn judges() -> Vec<(&'static str, Judge)> {
+    crate::checks::worker_judges()
+}
+
+// ---------------------------------------------------------------------------------------------
+// child side
+
+pub fn child_main(args: &[String]) -> i32 {
+    let name = args.first().map(|s| s.as_str()).unwrap_or("");
+    let Some((_, judge)) = judges().into_iter().find(|(n, _)| *n == name) else {
+        eprintln!("unknown worker judge {name}");
+        return 64;
+    };
+    // backstop against runaway memory (address space), far above any legitimate need
+    unsafe {
+        let lim = libc::rlimit { rlim_cur: 6 << 30, rlim_max: 6 << 30 };
+        libc::setrlimit(libc::RLIMIT_AS, &lim);
+    }
+    crate::util::par::install_panic_hook();
+    alloc::enable();
+    let stdin = std::io::stdin();
+    let mut inp = stdin.lock();
+    let mut head = [0u8; 20];
+    loop {
+        if inp.read_exact(&mut head).is_err() {
+            break;
+        }
+        let id = u64::from_le_bytes(head[0..8].try_into().unwrap());
+        let budget = u64::from_le_bytes(head[8..16].try_into().unwrap());
+        let len = u32::from_le_bytes(head[16..20].try_into().unwrap()) as usize;
+        let mut bytes = vec![0u8; len];
+        if inp.read_exact(&mut bytes).is_err() {
+            break;
+        }
+        eprintln!("B {id}");
+        alloc::begin(id, budget);
+        let r = guard(|| judge(&bytes));
+        let (peak, largest) = alloc::end();
+        let line = match r {
+            Ok(v) => json!({"ok": v, "peak": peak, "largest": largest}),
+            Err(p) => json!({"panic": {"message": p.message, "file": p.file, "line": p.line, "frame": p.rpm_frame}, "peak": peak, "largest": largest}),
+        };
+        eprintln!("R {id} {line}");
+    }
+    0
+}
+
+// ---------------------------------------------------------------------------------------------
+// parent side
+
+pub struct Case {
+    pub id: u64,
+    /// allocation budget in bytes (0 = no budget)
+    pub budget: u64,
+    pub bytes: Vec<u8>,
+}
+
+pub fn default_budget(len: usize) -> u64 {
+    (4u64 << 20) + 256 * len as u64
+}
+
+#[derive(Clone, Debug)]
+pub enum Outcome {
+    /// the judge ran to completion: its value, peak live bytes, largest single request
+    Done { value: Value, peak: u64, largest: u64 },
+    Panic { message: String, file: String, line: u64, frame: String },
+    /// allocation budget exceeded: refused request size and live bytes at that moment
+    Alloc { request: u64, live: u64, site: String },
+    /// the process died (signal / abort / non-zero exit) while the case was open
+    Crash { status: String, stderr_tail: String },
+    /// no progress within the watchdog (confirmed = still running when re-run alone with 10x budget)
+    Timeout { confirmed: bool },
+}
+
+impl Outcome {
+    pub fn site(&self) -> String {
+        match self {
+            Outcome::Panic { message, file, frame, .. } => format!("panic:{}", crate::util::par::site_of(file, frame, message)),
+            Outcome::Alloc { site, .. } => format!("alloc-budget:{site}"),
+            Outcome::Crash { status, .. } => format!("crash:{status}"),
+            Outcome::Timeout { .. } => "timeout".into(),
+            Outcome::Done { .. } => "done".into(),
+        }
+    }
+}
+
+struct ShardState {
+    results: Vec<(u64, Outcome)>,
+}
+
+fn run_shard(bin: &Path, judge: &str, shard: &[&Case], timeout: Duration) -> Vec<(u64, Outcome)> {
+    let mut st = ShardState { results: Vec::with_capacity(shard.len()) };
+    let mut next = 0usize;
+    let mut stalls = 0;
+    while next < shard.len() {
+        let mut child = match Command::new(bin).arg("worker").arg(judge).stdin(Stdio::piped()).stdout(Stdio::null()).stderr(Stdio::piped()).spawn() {
+            Ok(c) => c,
+            Err(e) => {
+                for c in &shard[next..] {
+                    st.results.push((c.id, Outcome::Crash { status: format!("spawn failed: {e}"), stderr_tail: String::new() }));
+                }
+                break;
+            }
+        };
+        let mut stdin = child.stdin.take().unwrap();
+        let stderr = child.stderr.take().unwrap();
+        let pid = child.id() as i32;
+        let last_event = Arc::new(Mutex::new(Instant::now()));
+        let open_flag = Arc::new(AtomicBool::new(false));
+        let finished = Arc::new(AtomicBool::new(false));
+        let timed_out = Arc::new(AtomicBool::new(false));
+        let start = next;
+        let mut done_here = 0usize;
+        let mut open: Option<u64> = None;
+        let mut alloc_marker: Option<(u64, u64, u64)> = None;
+        let mut alloc_site = String::from("?");
+        let mut tail: Vec<String> = Vec::new();
+        std::thread::scope(|s| {
+            // feeder
+            let feed = &shard[start..];
+            s.spawn(move || {
+                for c in feed {
+                    let mut head = [0u8; 20];
+                    head[0..8].copy_from_slice(&c.id.to_le_bytes());
+                    head[8..16].copy_from_slice(&c.budget.to_le_bytes());
+                    head[16..20].copy_from_slice(&(c.bytes.len() as u32).to_le_bytes());
+                    if stdin.write_all(&head).is_err() || stdin.write_all(&c.bytes).is_err() {
+                        break;
+                    }
+                }
+                drop(stdin);
+            });
+            // watchdog
+            let (done_tx, done_rx) = std::sync::mpsc::channel::<()>();
+            {
+                let (last_event, open_flag, finished, timed_out) = (last_event.clone(), open_flag.clone(), finished.clone(), timed_out.clone());
+                s.spawn(move || loop {
+                    // wakes up at once when the reader is done
+                    if done_rx.recv_timeout(Duration::from_millis(100)).is_ok() || finished.load(Ordering::Relaxed) {
+                        break;
+                    }
+                    let idle = last_event.lock().unwrap().elapsed();
+                    if open_flag.load(Ordering::Relaxed) && idle > timeout {
+                        timed_out.store(true, Ordering::Relaxed);
+                        unsafe {
+                            libc::kill(pid, libc::SIGKILL);
+                        }
+                        break;
+                    }
+                });
+            }
+            // reader (this thread)
+            let mut rd = BufReader::new(stderr);
+            let mut line = String::new();
+            loop {
+                line.clear();
+                match rd.read_line(&mut line) {
+                    Ok(0) | Err(_) => break,
+                    Ok(_) => {}
+                }
+                *last_event.lock().unwrap() = Instant::now();
+                let l = line.trim_end();
+                if let Some(rest) = l.strip_prefix("B ") {
+                    open = rest.parse().ok();
+                    open_flag.store(true, Ordering::Relaxed);
+                } else if let Some(rest) = l.strip_prefix("R ") {
+                    if let Some((id, js)) = rest.split_once(' ') {
+                        let id: u64 = id.parse().unwrap_or(u64::MAX);
+                        let v: Value = serde_json::from_str(js).unwrap_or(Value::Null);
+                        let peak = v["peak"].as_u64().unwrap_or(0);
+                        let largest = v["largest"].as_u64().unwrap_or(0);
+                        let out = if let Some(p) = v.get("panic") {
+                            Outcome::Panic {
+                                message: p["message"].as_str().unwrap_or("").to_string(),
+                                file: p["file"].as_str().unwrap_or("").to_string(),
+                                line: p["line"].as_u64().unwrap_or(0),
+                                frame: p["frame"].as_str().unwrap_or("").to_string(),
+                            }
+                        } else {
+                            Outcome::Done { value: v["ok"].clone(), peak, largest }
+                        };
+                        st.results.push((id, out));
+                        done_here += 1;
+                        open = None;
+                        open_flag.store(false, Ordering::Relaxed);
+                    }
+                } else if let Some(rest) = l.strip_prefix("A ") {
+                    let mut it = rest.split(' ').map(|x| x.parse::<u64>().unwrap_or(0));
+                    alloc_marker = Some((it.next().unwrap_or(0), it.next().unwrap_or(0), it.next().unwrap_or(0)));
+                } else if let Some(rest) = l.strip_prefix("S ") {
+                    alloc_site = rest.to_string();
+                } else if !l.is_empty() {
+                    if tail.len() >= 6 {
+                        tail.remove(0);
+                    }
+                    tail.push(l.chars().take(300).collect());
+                }
+            }
+            finished.store(true, Ordering::Relaxed);
+            let _ = done_tx.send(());
+        });
+        let status = child.wait().map(|s| format!("{s}")).unwrap_or_else(|e| format!("wait failed: {e}"));
+        if let Some(id) = open {
+            let out = if let Some((_, request, live)) = alloc_marker {
+                Outcome::Alloc { request, live, site: alloc_site.clone() }
+            } else if timed_out.load(Ordering::Relaxed) {
+                Outcome::Timeout { confirmed: false }
+            } else {
+                Outcome::Crash { status: status.clone(), stderr_tail: tail.join(" | ") }
+            };
+            st.results.push((id, out));
+            done_here += 1;
+        }
+        if done_here == 0 {
+            stalls += 1;
+            if stalls >= 3 {
+                for c in &shard[next..] {
+                    st.results.push((c.id, Outcome::Crash { status: format!("worker makes no progress ({status})"), stderr_tail: tail.join(" | ") }));
+                }
+                break;
+            }
+        } else {
+            stalls = 0;
+        }
+        next = start + done_here;
+    }
+    st.results
+}
+
+/// Run all cases through `workers` child processes of `bin`; outcomes are returned in case order.
+pub fn run_cases(bin: &Path, judge: &str, cases: &[Case], workers: usize, timeout: Duration) -> Vec<(u64, Outcome)> {
+    let workers = workers.max(1).min(cases.len().max(1));
+    let mut shards: Vec<Vec<&Case>> = (0..workers).map(|_| Vec::new()).collect();
+    // contiguous blocks keep neighbouring (similar) cases in one worker
+    let per = cases.len().div_ceil(workers);
+    for (i, c) in cases.iter().enumerate() {
+        shards[(i / per.max(1)).min(workers - 1)].push(c);
+    }
+    let all: Mutex<Vec<(u64, Outcome)>> = Mutex::new(Vec::with_capacity(cases.len()));
+    std::thread::scope(|s| {
+        for sh in &shards {
+            let all = &all;
+            s.spawn(move || {
+                let r = run_shard(bin, judge, sh, timeout);
+                all.lock().unwrap().extend(r);
+            });
+        }
+    });
+    let mut all = all.into_inner().unwrap();
+    // confirm timeouts on an otherwise idle machine with a 10x budget
+    let by_id: std::collections::HashMap<u64, &Case> = cases.iter().map(|c| (c.id, c)).collect();
+    for (id, out) in all.iter_mut() {
+        if let Outcome::Timeout { .. } = out {
+            if let Some(c) = by_id.get(id) {
+                let again = run_shard(bin, judge, &[*c], timeout * 10);
+                match again.into_iter().next() {
+                    Some((_, Outcome::Timeout { .. })) => *out = Outcome::Timeout { confirmed: true },
+                    Some((_, o)) => *out = o,
+                    None => {}
+                }
+            }
+        }
+    }
+    all.sort_by_key(|(id, _)| *id);
+    all
+}
+
+pub fn worker_binaries() -> Vec<(&'static str, std::path::PathBuf)> {
+    let mut v = Vec::new();
+    if let Ok(p) = std::env::var("VERIF_REL_BIN") {
+        v.push(("release", std::path::PathBuf::from(p)));
+    } else if let Ok(p) = std::env::current_exe() {
+        v.push((crate::util::report::profile_name(), p));
+    }
+    if let Ok(p) = std::env::var("VERIF_DBG_BIN") {
+        let p = std::path::PathBuf::from(p);
+        if p.exists() {
+            v.push(("verifdbg", p));
+        }
+    }
+    v
+}
+
+static NEXT_ID: AtomicU64 = AtomicU64::new(0);
+pub fn fresh_id() -> u64 {
+    NEXT_ID.fetch_add(1, Ordering::Relaxed)
 }
